@@ -683,6 +683,7 @@ static int _fetch_and_process_packet(OggVorbis_File *vf,
                                      int readp,
                                      int spanp){
   ogg_page og;
+  int keep_halfrate=0; /* streaming: the flag of the link we leave */
 
   /* handle one packet.  Try to fetch it from current stream state */
   /* extract packets from page */
@@ -803,6 +804,9 @@ static int _fetch_and_process_packet(OggVorbis_File *vf,
               _decode_clear(vf);
 
               if(!vf->seekable){
+                /* half-rate decoding was asked for the stream, not
+                   for one link: carry it over the boundary */
+                keep_halfrate=vorbis_synthesis_halfrate_p(vf->vi);
                 vorbis_info_clear(vf->vi);
                 vorbis_comment_clear(vf->vc);
               }
@@ -859,6 +863,7 @@ static int _fetch_and_process_packet(OggVorbis_File *vf,
 
           int ret=_fetch_headers(vf,vf->vi,vf->vc,NULL,NULL,&og);
           if(ret)return(ret);
+          if(keep_halfrate>0)vorbis_synthesis_halfrate(vf->vi,1);
           vf->current_serialno=vf->os.serialno;
           vf->current_link++;
           link=0;
